@@ -174,19 +174,22 @@ class Engine:
                 res = ctx.tlc("SRec_MC", cfg, label=label)
                 for e in res.errors:
                     raise core.tlcmod.MachineryError("SRec law fails in the specification itself: %s\n%s" % (e, e.text[:1500]))
-        cases = [(b, c, None) for b, c in inputs(ctx)]
-        try:
-            obj, b, c = linked_object()
-            cases.append((b, c, obj))
-        except Exception as e:  # the compiler is not the subject of this property
-            ctx.note("linked m68k object skipped: %s" % recfmt.exc_name(e))
+        if ctx.only is not None:   # replay: the recorded input itself, independent of tier and seed
+            inp = ctx.only["case"]["input"]
+            cases = [(inp["base"], bytes.fromhex(inp["code"]), None)]
+        else:
+            cases = [(b, c, None) for b, c in inputs(ctx)]
+        if ctx.only is None or ctx.only["case"]["input"]["desc"].startswith("linked:"):
+            try:
+                obj, b, c = linked_object()
+                cases = cases + [(b, c, obj)] if ctx.only is None else [(b, c, obj)]
+            except Exception as e:  # the compiler is not the subject of this property
+                ctx.note("linked m68k object skipped: %s" % recfmt.exc_name(e))
         files = []
         seen = set()
         for base, code, obj in cases:
             desc = "%sbase=%#x,size=%d" % ("linked:" if obj is not None else "", base, len(code))
             key = "C19:%s:%s:{clause}:%s" % (size_class(base, len(code)), "b0" if base == 0 else "bn", desc)
-            if ctx.only is not None and ctx.only.get("case", {}).get("file") != key:
-                continue
             if key in seen:
                 continue
             seen.add(key)
@@ -213,7 +216,7 @@ class Engine:
                 "small": len(code) <= SMALL,
                 "text": lines,
                 "input": {"desc": desc, "base": base, "size": len(code),
-                          "code": bytes(code).hex() if len(code) <= 64 else "%d bytes" % len(code)},
+                          "code": bytes(code).hex()},
             })
             ctx.count(key)
         ctx.cov["records_validated"] = sum(len(f["lines"]) for f in files)
